@@ -213,7 +213,7 @@ class Engine:
     extra_cflags = ()
     repo_deps = ()          # files under /repo that are #included by the harness TU
     env = {}
-    timeout = 600
+    timeout = 1800
     parallel = 1            # >1: the case list is split over this many harness/driver processes (engine must keep
                             # per-process scratch state only)
 
